@@ -359,8 +359,8 @@ func runHOp(ctx context.Context, ctrl ledgercontroller.Controller, o hOp) (log *
 // re-orders and may merge keys: the same export re-encoding class as invalid values, but not recognisable entry by entry)
 func advKV(r *Rng) []KV {
 	m := metadata.Metadata{}
-	for k, v := range advMeta(r, true) {
-		m[strings.ToValidUTF8(k, "?")] = v
+	for _, kv := range sortKV(advMeta(r, true)) { // sorted: map iteration order must not decide which of two merged keys wins
+		m[strings.ToValidUTF8(kv.K, "?")] = kv.V
 	}
 	return sortKV(m)
 }
@@ -706,16 +706,20 @@ func monC09Stack(sr *stackRun) []string {
 		if ref, ok := refTriggerHash(ph, i > 0, row); ok && bytes.Equal(ref, row.Hash) {
 			continue
 		}
-		from := "no stored log or nothing"
-		if ref, ok := refTriggerHash(nil, false, row); ok && bytes.Equal(ref, row.Hash) {
+		from := ""
+		if ref, ok := refTriggerHash(nil, false, row); ok && bytes.Equal(ref, row.Hash) && i > 0 {
 			from = "nothing (as if it were the first log)"
 		}
 		for j, other := range sr.Rows {
-			if ref, ok := refTriggerHash(other.Hash, true, row); ok && bytes.Equal(ref, row.Hash) {
+			if ref, ok := refTriggerHash(other.Hash, true, row); ok && bytes.Equal(ref, row.Hash) && j != i-1 {
 				from = fmt.Sprintf("log %d", sr.Rows[j].ID)
 			}
 		}
-		out = append(out, fmt.Sprintf("[not-linear] log %d does not chain from its predecessor in id order (log %d): it chains from %s", row.ID, row.ID-1, from))
+		if from != "" {
+			out = append(out, fmt.Sprintf("[not-linear] log %d does not chain from its predecessor in id order: it chains from %s", row.ID, from))
+		} else {
+			out = append(out, fmt.Sprintf("[not-chain-hash] log %d: the stored hash %x is not the documented chain hash (the trigger's rule of migration 37) over any stored predecessor", row.ID, row.Hash))
+		}
 	}
 	for _, m := range monC10Stack(sr, true) {
 		out = append(out, "recompute: "+m)
@@ -742,7 +746,9 @@ func cmdHashes(args []string) int {
 			out.Stats["distinct_nontrivial"]++
 		}
 	}
-	stack := func(sr *stackRun) {
+	minimised, noMin := 0, false
+	var stack func(sr *stackRun)
+	stack = func(sr *stackRun) {
 		cs := sr.caseSx()
 		out.Case(cs, sr.implSx())
 		out.Stats["cases"]++
@@ -767,6 +773,33 @@ func cmdHashes(args []string) int {
 		}
 		if len(sr.Rows) >= 2 {
 			out.Stats["distinct_nontrivial"]++
+		}
+		novel := func(x *stackRun) (c10, c09 bool) {
+			for _, m := range monC10Stack(x, false) {
+				c10 = c10 || strings.Contains(m, "[unexplained]")
+			}
+			for _, m := range monC09Stack(x) {
+				c09 = c09 || strings.Contains(m, "[unexplained]") || strings.HasPrefix(m, "[not-") || strings.HasPrefix(m, "[ids]") || strings.HasPrefix(m, "[no-hash]")
+			}
+			return
+		}
+		// a divergence outside the known classes: delta-debug the operation list (drop one operation at a time while the same property still
+		// shows a novel violation) and report on the minimised history first; budget: at most 3 minimisations per run of the command
+		if a, b := novel(sr); (a || b) && minimised < 3 && !noMin {
+			minimised++
+			ops := append([]hOp{}, sr.Ops...)
+			for i := len(ops) - 1; i >= 0 && len(ops) > 1; i-- {
+				cand := append(append([]hOp{}, ops[:i]...), ops[i+1:]...)
+				if x, y := novel(runStack(cand, nil)); (a && x) || (!a && b && y) {
+					ops = cand
+				}
+			}
+			if len(ops) < len(sr.Ops) {
+				noMin = true
+				stack(runStack(ops, nil))
+				noMin = false
+				out.Stats["minimised_histories"]++
+			}
 		}
 		for _, m := range monC10Stack(sr, false) {
 			out.Violation("C10", cs, m)
